@@ -10,6 +10,7 @@ package writecache
 import (
 	"fmt"
 	"io"
+	"math/rand/v2"
 	"path/filepath"
 	"testing"
 
@@ -26,7 +27,7 @@ func TestVerif_C11(t *testing.T) {
 		small = []int{0, 1, 2, 3, 4, 5, 8, 16, 33, 64}
 	}
 	nBig, nDirected := r.Pick(4, 16), r.Pick(80, 200)
-	r.SetRule(fmt.Sprintf("write-cache: payload lengths %v with every request of the four modes (values 0..len+2) plus huge values, and %d larger payloads with %d boundary-directed requests each; objects put through Cache.Put or found as zstd / combined files at start; GetRangeStream, ReadPayloadRange, ReadObjectParts with and without header interception; requests the statement leaves undefined must get the same answer as from the cache's own FSTree; distinct = (api, format, length class, mode, request shape, interception)", small, nBig, nDirected))
+	r.SetRule(fmt.Sprintf("write-cache: payload lengths %v with every request of the four modes (values 0..len+2) plus huge values, and %d larger payloads with %d boundary-directed requests each; objects put through Cache.Put or found as zstd / combined files at start; GetRangeStream, ReadPayloadRange, ReadObjectParts with and without header interception; requests the statement leaves undefined must get the same answer as from the cache's own FSTree; then batches of 2..8 range reads with overlapping answer lifetimes (seeded schedule of issue / read chunk / abandon / close) and rounds of concurrent reads, judged by the same resolver; distinct = (api, format, length class, mode, request shape, interception)", small, nBig, nDirected))
 
 	dir := filepath.Join(t.TempDir(), "wc")
 	cnr, owner := verifkit.RandCID(r.Rand("ids", 0)), verifkit.RandUser(r.Rand("ids", 1))
@@ -170,4 +171,47 @@ func TestVerif_C11(t *testing.T) {
 			}
 		}
 	}
+
+	// answers with overlapping lifetimes and concurrent requests (see vf11.Overlapped)
+	vf11.OverlapPhase(r, "wc", 0, r.Pick(60, 400), r.Pick(2, 10), func(rng *rand.Rand) vf11.Call {
+		o := items[rng.IntN(len(items))].o
+		if rng.IntN(2) == 0 { // larger payloads half of the time
+			o = items[len(items)-1-rng.IntN(3*nBig)].o
+		}
+		req := vf11.RandReq(rng, o)
+		withHook := rng.IntN(2) == 0
+		var hook func([]byte) error
+		if withHook {
+			var calls int
+			hook = vf11.Intercept(&calls)
+		}
+		cl := vf11.Call{Layer: "writecache", O: o, Req: req}
+		api := rng.IntN(3)
+		if api == 1 && req.Mode != common.PayloadRangeModeOffsetLength {
+			api = 0
+		}
+		switch api {
+		case 0:
+			cl.API = "GetRangeStream"
+			cl.Open = func() (io.ReadCloser, func() []byte, error) {
+				_, _, stream, err := c.GetRangeStream(o.Addr, req.Range(), withHook)
+				return stream, nil, err
+			}
+		case 1:
+			cl.API = "ReadPayloadRange"
+			cl.Open = func() (io.ReadCloser, func() []byte, error) {
+				var stream io.ReadCloser
+				stream, err := c.ReadPayloadRange(o.Addr, req.A, req.B, make([]byte, 2*vf11.NPFBL), hook)
+				return stream, nil, err
+			}
+		default:
+			cl.API = "ReadObjectParts"
+			cl.Open = func() (io.ReadCloser, func() []byte, error) {
+				buf := make([]byte, 2*vf11.NPFBL)
+				n, stream, err := c.ReadObjectParts(buf, o.Addr, req.Range(), hook)
+				return vf11.PartsOpen(req, buf, n, stream, err)
+			}
+		}
+		return cl
+	})
 }
